@@ -323,7 +323,8 @@ AXES = [1e-3, 0.3, 1.0, 1.0 + 2.0**-52, 1.0 + 1e-12, 1.0 + 1e-6, 2.0, 7.5, 1e3]
 def curv_centres(diam):
     u = (3.0, -2.0, 5.0)
     nu = math.sqrt(38.0)
-    return [(0.0, 0.0, 0.0), (1.0, 2.0, 3.0), (-7.0, 0.5, 11.0), tuple(10.0 * diam * x / nu for x in u)]
+    # (entries 4 and 5: on a coordinate plane / on an axis - some but not all components are zero)
+    return [(0.0, 0.0, 0.0), (1.0, 2.0, 3.0), (-7.0, 0.5, 11.0), tuple(10.0 * diam * x / nu for x in u), (2.0, -1.5, 0.0), (0.0, 0.0, 2.5)]
 
 
 # ---------------------------------------------------------------------------
